@@ -53,6 +53,11 @@ pub struct Case {
     /// ops to execute instead of generating (replay / fault re-runs)
     pub script: Option<Vec<Op>>,
     pub tolerated_divergence: bool,
+    /// run the liveness probe at the end of the history
+    pub probe: bool,
+    /// database content after every operation (index-aligned with `ops`), if recording
+    pub record_snaps: bool,
+    pub snaps: Vec<Snap>,
 }
 
 const SLOTS: &[u32] = &[1, 2, 3, 5, 21, 1000, 0, u32::MAX];
@@ -69,13 +74,15 @@ impl Case {
         let (s, d, g) = match bias {
             // trackers must live for 100+ blocks
             "chain" => (*rng.pick(&[5u32, 21, 1000]), *rng.pick(&[150u32, 500, 500]), *rng.pick(GRACES)),
+            // plenty of slots, so that a crash costing a request's slots cannot cascade into later refusals
+            "crash" => (1000, *rng.pick(&[20u32, 150, 500, 500]), *rng.pick(GRACES)),
             "expiry" => (*rng.pick(&[0u32, 1, 2, 3, 5, 21, 1000, 0x8000_0000, u32::MAX]), *rng.pick(&[0u32, 1, 2, 5, 20]), *rng.pick(GRACES)),
             _ => (*rng.pick(SLOTS), *rng.pick(DURATIONS), *rng.pick(GRACES)),
         };
         let db_path = dir.join(format!("case-{id}.sqlite"));
         let _ = std::fs::remove_file(&db_path);
         let model = Model::new(s, d, g, &lock(&world.chain));
-        let max_steps = 30 + rng.usize(120);
+        let max_steps = if bias == "crash" { 12 + rng.usize(28) } else { 30 + rng.usize(120) };
         Case {
             id,
             world,
@@ -95,6 +102,9 @@ impl Case {
             pending_blocks: 0,
             script: None,
             tolerated_divergence: false,
+            probe: true,
+            record_snaps: false,
+            snaps: Vec::new(),
         }
     }
 
@@ -250,7 +260,7 @@ impl Case {
         }
         let registered = self.model.users.len();
         // a block was mined but not yet delivered: usually deliver it
-        if self.pending_blocks > 0 && self.rng.chance(70, 100) {
+        if self.pending_blocks > 0 && (self.bias == "crash" || self.rng.chance(70, 100)) {
             return Op::Poll;
         }
         let (w_reorg, w_long, w_restart) = match self.bias.as_str() {
@@ -292,6 +302,7 @@ impl Case {
             5 => {
                 let n = 2 + self.rng.usize(4);
                 let mut blocks = Vec::new();
+                let salt0 = lock(&self.world.chain).salt;
                 for _ in 0..n {
                     // generate sequentially so that causality sees earlier blocks of the batch
                     let b = self.gen_block(true);
@@ -304,6 +315,7 @@ impl Case {
                     for _ in 0..n {
                         cs.active.pop();
                     }
+                    cs.salt = salt0;
                 }
                 self.pending_blocks += n;
                 Op::Mine { blocks }
@@ -314,6 +326,7 @@ impl Case {
                 let depth = 1 + self.rng.usize(max_depth.min(h.saturating_sub(2)).max(1));
                 let extra = 1 + self.rng.usize(2);
                 // generate the replacement branch on a scratch view of the chain
+                let salt0 = lock(&self.world.chain).salt;
                 let saved: Vec<_> = {
                     let mut cs = lock(&self.world.chain);
                     let n = cs.active.len();
@@ -331,6 +344,7 @@ impl Case {
                         cs.active.pop();
                     }
                     cs.active.extend(saved);
+                    cs.salt = salt0;
                 }
                 self.pending_blocks += 1;
                 Op::Reorg { depth, blocks }
@@ -883,11 +897,19 @@ impl Case {
             }
             self.steps += 1;
             if let Op::Restart = op {
+                if self.record_snaps {
+                    self.snaps.push(self.prev_snap.clone());
+                }
                 return Exit::Restart;
             }
+            crate::events::CUR_OP.store(self.steps - 1, std::sync::atomic::Ordering::SeqCst);
             self.exec(s, &op);
+            crate::events::CUR_OP.store(usize::MAX, std::sync::atomic::Ordering::SeqCst);
+            if self.record_snaps {
+                self.snaps.push(self.prev_snap.clone());
+            }
         }
-        if !self.stopped {
+        if !self.stopped && self.probe {
             // liveness probe (C11): the tower still answers a request and processes a block
             self.world.mine(&[vec![]], self.salt);
             self.exec_poll(s);
